@@ -96,7 +96,7 @@ def c07(tier, hook=None):
     mods = [(i, rf.clone_module(i, list(g[0]), g[2], g[1], g[3], g[4], g[5], disc=(len(g) > 6 and g[6]))) for i, g in enumerate(guises)]
     # seeded histories (stateful validation of longer runs)
     rnd = random.Random(dx.seed())
-    nh = 40 if tier == "quick" else 2000
+    nh = 40 if tier == "quick" else 10000
     hist = []
     for h in range(nh):
         sh = list(rnd.choice(shapes))
@@ -352,7 +352,7 @@ def debug_descs(tier, rnd):
                     if list(dbgs).count("transparent") == 1:
                         descs.append({"kind": "struct", "variants": [{"name": "S%d" % len(descs), "shape": shape, "fields": fields(n, shape, dbgs)}]})
     # enums mixing variant kinds
-    for k in range(12 if tier == "quick" else 400):
+    for k in range(12 if tier == "quick" else 2500):
         vs = []
         for vi in range(rnd.choice([1, 2, 3, 4])):
             shape = rnd.choice(["unit", "tuple", "named"])
@@ -646,7 +646,7 @@ def c12(tier, hook=None):
     ck = hook["ck"] if hook else dx.Check("C12", tier)
     T = (hook or {}).get("transform") or (lambda ms: ms)
     rnd = random.Random(dx.seed())
-    N = 150 if tier == "quick" else 4000
+    N = 150 if tier == "quick" else 20000
     mods, meta = [], []
     for k in range(N):
         d = rf.c12_random(rnd, k)
